@@ -525,6 +525,10 @@ def exec_real(sc):
             if r[0] in ('DECODE', 'CODEC'):
                 env.close()
                 return text, cl, ('GE', 'refused-non-utf8', None), [], 'bytes-that-are-not-utf8-refused'
+            # a Manifest FILE is read in text mode with universal newlines: what the loader (and through it the peer) sees
+            # of a CR-LF file is its LF form
+            text = data.decode('utf8', 'replace').replace('\r\n', '\n').replace('\r', '\n')
+            cl = classify(split_lines(text))
         else:
             r = call(lambda: m.load(io.StringIO(text), verify_openpgp=True, openpgp_env=proxy))
     finally:
